@@ -44,8 +44,86 @@ EXPECTED_DETAIL = {"dayloop": {"ZEIT<=g.ENDE;ZEIT=ZEIT+g.DT.Index"}, "subloop": 
                    "DT": {"call:SetByIndex(1)", "literal:NewDualType(1,0)"}}
 
 
+def _cs(s):
+    return '"' + s.replace('"', '""') + '"'
+
+
 def generate(ctx):
+    """tie 3: the shipped texture tables as Coq string lists (gen/TextureTables.v)"""
     B.ensure_coqproject()
+    defs = []
+    for name, fn in (("parcap_lines", "PARCAP.TRU"), ("hypar_lines", "HYPAR.TRU")):
+        raw = open(os.path.join(core.REPO, "examples", "parameter", fn), "rb").read()
+        if any(b > 127 for b in raw):
+            raise BuildError("%s is not ASCII: TextureModel does not cover it" % fn)
+        lines = raw.decode("ascii").replace("\r\n", "\n").split("\n")
+        if lines and lines[-1] == "":
+            lines.pop()                      # bufio.Scanner: no empty token after the final newline
+        defs.append("Definition %s : list string := [\n  %s\n]." % (name, ";\n  ".join(_cs(l) for l in lines)))
+    with open(os.path.join(ctx.gen, "TextureTables.v"), "w") as f:
+        f.write("(* generated from %s/examples/parameter — do not edit *)\nFrom Coq Require Import List String.\n"
+                "Import ListNotations.\nLocal Open Scope string_scope.\n%s\n" % (core.REPO, "\n".join(defs)))
+
+
+TABLES_CHECK_V = """From Coq Require Import List Bool String.
+From Hermes Require Import TextureModel TextureProofs.
+From HermesGen Require Import TextureTables.
+Theorem shipped_tables_wf : tables_wf parcap_lines hypar_lines = true.
+Proof. vm_compute. reflexivity. Qed.
+Theorem shipped_texture_validation_iff_lookup :
+  forall code, validate parcap_lines code = true <-> lookup parcap_lines hypar_lines code = true.
+Proof. exact (texture_validation_iff_lookup_lemma parcap_lines hypar_lines shipped_tables_wf). Qed.
+Theorem shipped_texture_path_never_kills :
+  forall raws, profile_outcome parcap_lines hypar_lines raws <> ProcessDies.
+Proof. intros raws. exact (proj1 (texture_path_never_kills_lemma parcap_lines hypar_lines shipped_tables_wf raws)). Qed.
+Theorem shipped_tables_nonempty : Nat.leb 40 (List.length (valid_textures parcap_lines)) = true.
+Proof. vm_compute. reflexivity. Qed.
+Print Assumptions shipped_texture_validation_iff_lookup.
+Print Assumptions shipped_texture_path_never_kills.
+"""
+
+
+def gen_proofs(ctx):
+    names = ["shipped_tables_wf", "shipped_texture_validation_iff_lookup", "shipped_texture_path_never_kills", "shipped_tables_nonempty"]
+    src = os.path.join(ctx.gen, "TextureTables.v")
+    if not os.path.exists(src):
+        return len(names), 0, [{"stage": "generated-proof", "what": "TextureTables.v was not generated"}], names
+    rc, out = ctx.coqc(src, timeout=300)
+    if rc == 0:
+        rc, out = ctx.coq_eval("TextureTablesCheck", TABLES_CHECK_V, timeout=300)
+    if rc != 0 or out.count("Closed under the global context") != 2:
+        return len(names), 0, [{"stage": "generated-proof", "theorem": "shipped_tables_wf",
+                                "what": "the shipped PARCAP.TRU / HYPAR.TRU no longer satisfy tables_wf (validation and Hydro look-up disagree on some key)",
+                                "coq": out[-1200:]}], names
+    return len(names), len(names), [], names
+
+
+def _texture_harness(vh, ex, bf, n):
+    """runs the lines of bf in-process (vh c11tex); a log.Fatal ends the harness: restart after that line"""
+    obs, skip = {}, 0
+    while skip < n:
+        try:
+            p = subprocess.run([vh, "c11tex", "-dir", ex, "-batch", bf, "-skip", str(skip)],
+                               stdout=subprocess.PIPE, stderr=subprocess.PIPE, text=True, timeout=4 * TIMEOUT, errors="replace")
+            rc, out, err = p.returncode, p.stdout, p.stderr
+        except subprocess.TimeoutExpired as te:
+            rc, out, err = -9, (te.stdout or b"").decode(errors="replace") if isinstance(te.stdout, bytes) else (te.stdout or ""), "timeout"
+        last = None
+        for l in out.split("\n"):
+            if l.startswith("CASE "):
+                last = int(l.split()[1])
+            elif l.startswith("T "):
+                tt = l.split(" ", 3)
+                obs[int(tt[1])] = (tt[2], tt[3] if len(tt) > 3 else "")
+        if rc == 0 and last is not None and last in obs and last == n - 1:
+            break
+        if last is None or last in obs:
+            obs.setdefault(skip, ("harness", err[-300:]))
+            skip = (last if last is not None else skip) + 1
+        else:
+            obs[last] = ("timeout" if rc == -9 else "fatal", err[-300:])
+            skip = last + 1
+    return obs
 
 
 def _own_id(line):
@@ -71,13 +149,22 @@ def _run(ctx):
     # (b) batches
     ex = B.setup_examples(ctx)
     B.make_failing_inputs(ex)
+    # texture spellings: soil files with one id per spelling; every case through the real Input/Hydro in-process
+    tcases = B.make_texture_inputs(ex, rng, 120 if ctx.thorough else 30)
     before = B.tree_snapshot(ex)
-    pool = dict(B.VALID); pool.update(B.FAILING)
+    bf = os.path.join(ex, "TX_batch.txt")
+    with open(bf, "w") as f:
+        for i, tc in enumerate(tcases):
+            f.write("%s resultfolder=TX/l%d\n" % (tc["line"], i))
+    tobs = _texture_harness(vh, ex, bf, len(tcases))
+    _cache.update(tcases=tcases, tobs=tobs)
+    pool = dict(B.VALID); pool.update(B.FAILING); pool.update(B.TEXTURE_FAILING); pool.update(B.TEXTURE_VALID)
     vkeys = list(B.VALID); rng.shuffle(vkeys)
     valid = vkeys[:(8 if ctx.thorough else 4)]
     if "pred" not in valid:
         valid[-1] = "pred"
-    classes = list(B.FAILING)
+    valid += list(B.TEXTURE_VALID)
+    classes = list(B.FAILING) + list(B.TEXTURE_FAILING)
     solo = {}
     jobs = [lambda k=k: (k, B.run_batch(binary, ex, "solo_" + re.sub(r"\W", "_", k), [k], pool, 1, 4, timeout=TIMEOUT))
             for k in valid + classes]
@@ -154,6 +241,31 @@ def correspond(ctx):
             idx = [int(x) for x in re.findall(r"\d+", m.group(1))]
             c.mismatches.append({"kind": "longday", "what": "LongdayModel and hermes LangTag differ", "cases": [raw[i] for i in idx[:10]]})
     c.dist["longday_latitudes"] = len(lcases)
+    # ---- (a2) texture path: real Input/Hydro (in-process) against TextureModel on the generated tables
+    tcs, tobs = r["tcases"], r["tobs"]
+    def obs_code(i):
+        o, msg = tobs.get(i, ("harness", "no observation"))
+        if o == "ok":
+            return 0
+        if o == "error":
+            return 1 if "texture" in msg else 3
+        return 2 if o in ("panic", "fatal", "timeout") else 3
+    terms = ["(TCase [%s] %d)" % ("; ".join(_cs(x) for x in tc["raws"]), obs_code(i)) for i, tc in enumerate(tcs)]
+    text = "\n".join(["From Coq Require Import ZArith List String.", "From Hermes Require Import TextureModel C11Corr.",
+                      "From HermesGen Require Import TextureTables.", "Import ListNotations.", "Local Open Scope string_scope.",
+                      "Definition cases : list tcase := [\n  %s]." % ";\n  ".join(terms),
+                      "Definition TM := Eval vm_compute in tmismatches parcap_lines hypar_lines 0%Z cases.", "Print TM."]) + "\n"
+    rc3, o3 = ctx.coq_eval("Cases_C11_texture", text, timeout=300)
+    m = re.search(r"TM\s*=\s*(.*?)\s*:\s*list Z", o3, re.S)
+    if rc3 != 0 or not m:
+        c.mismatches.append({"kind": "coq-eval", "shard": "Cases_C11_texture", "output": o3[-1500:]})
+    elif m.group(1).strip() != "[]":
+        idx = [int(x) for x in re.findall(r"\d+", m.group(1))]
+        c.mismatches.append({"kind": "texture", "what": "TextureModel (exact 3-character key match) and the real Input/Hydro differ: "
+                             "0 = accepted, 1 = run error about the texture, 2 = process/goroutine died, 3 = other",
+                             "cases": [{"name": tcs[i]["name"], "raw_codes": tcs[i]["raws"], "observed": list(tobs.get(i, ("none", ""))),
+                                        "line": tcs[i]["line"]} for i in idx[:12]]})
+    c.dist["texture_spellings"] = len(tcs)
     # ---- (c) loop-bound sites
     lv = r["loopvars"]
     if lv is None:
@@ -192,8 +304,8 @@ def correspond(ctx):
                                  "observed_summary": e.summary, "observed_count": e.count, "started": B.ran_indices(e),
                                  "batch": e.contents, "solo_failed": {k: errs[k] for k in e.contents}})
     allx = list(r["solo"].values()) + r["mixed"]
-    c.cases = len(allx) + len(lcases)
-    c.nontrivial = len({(tuple(e.contents), e.c) for e in allx}) + len(set(lcases))
+    c.cases = len(allx) + len(lcases) + len(tcs)
+    c.nontrivial = len({(tuple(e.contents), e.c) for e in allx}) + len(set(lcases)) + len({(tc["project"], tuple(tc["raws"])) for tc in tcs})
     for e in r["mixed"]:
         c.bump("mixed concurrency=%d" % e.c)
     c.dist["solo_runs"] = len(r["solo"]); c.dist["error_classes"] = len(r["classes"])
@@ -217,6 +329,18 @@ def oracle(ctx, search):
     for line in out.split("\n"):
         if line.startswith("ORACLE "):
             fails.append(Fail(key=line[7:40], what=line[7:]))
+    # texture spellings through the real Input/Hydro: a run error or a completed run, never a death
+    for i, tc in enumerate(r["tcases"]):
+        o, msg = r["tobs"].get(i, ("harness", "no observation"))
+        if o in ("panic", "fatal", "timeout"):
+            pos = "single" if len(tc["raws"]) == 1 else ("top" if tc["name"].find("deep") < 0 else "deep")
+            fails.append(Fail(key="texture-spelling:%s:%s:process-died" % ("txt" if tc["project"] == "ttx" else "csv", pos),
+                              what="a soil texture code that is not a key of the tables passes the validation and kills the process in Hydro (%s)" % o,
+                              raw_codes_top_to_bottom=tc["raws"], message=msg[:300],
+                              replay="cd <copy of /repo/examples>; project %s = copy of %s with soil id %s whose horizons carry the texture codes %r (lib/props/batchlib.py make_texture_inputs); "
+                                     "batch line: %s ; hermes2go -module batch -concurrent 1 -batch <file>" % (
+                                         tc["project"], "ex1 (txt soil file, columns 10-12)" if tc["project"] == "ttx" else "bulk (csv soil file, Texture column)",
+                                         tc["sid"], tc["raws"], tc["line"])))
     # every listed class alone
     failed = {}
     for k, e in solo.items():
@@ -270,7 +394,7 @@ def oracle(ctx, search):
         outside = [i for i in B.ran_indices(e) if i not in inwin]
         if outside:
             fails.append(Fail(key="window:%s" % e.tag, what="lines outside the -lines window were executed", lines=outside, replay=_replay(e, pool)))
-    tags = {e.tag for e in list(solo.values()) + r["mixed"]}
+    tags = {e.tag for e in list(solo.values()) + r["mixed"]} | {"TX"}
     stray = [f for f in r["new_files"]
              if not (f.endswith("_batch.txt") and f[:-10] in tags) and not (f.split("/")[0] in tags and re.match(r"l\d+$", f.split("/")[1] if "/" in f else ""))]
     if stray:
